@@ -55,12 +55,12 @@ func constToValue(cv constant.Value, t types.Type, c *Ctx) Value {
 func (c *Ctx) strLit(s string) string {
 	c.useStr()
 	if s == "" {
-		return "str.empty"
+		return "gs.empty"
 	}
 	if n, ok := c.strlits[s]; ok {
 		return n
 	}
-	name := fmt.Sprintf("str.lit%d_%s", len(c.strlits), sanitize(truncate(s, 12)))
+	name := fmt.Sprintf("gs.lit%d_%s", len(c.strlits), sanitize(truncate(s, 12)))
 	c.declare(name, sInt)
 	c.strlits[s] = name
 	return name
@@ -76,20 +76,20 @@ func truncate(s string, n int) string {
 // strLitFacts returns the defining facts of the interned literals (added to every query of the ctx).
 func (c *Ctx) strLitFacts() []string {
 	var out []string
-	if _, ok := c.decls["str.empty"]; !ok {
+	if _, ok := c.decls["gs.empty"]; !ok {
 		return nil
 	}
-	out = append(out, eq(app("str.len", "str.empty"), "0"))
-	out = append(out, "(forall ((s Int)) (! (>= (str.len s) 0) :pattern ((str.len s))))")
-	out = append(out, "(forall ((s Int)) (! (=> (= (str.len s) 0) (= s str.empty)) :pattern ((str.len s))))")
-	names := []string{"str.empty"}
+	out = append(out, eq(app("gs.len", "gs.empty"), "0"))
+	out = append(out, "(forall ((s Int)) (! (>= (gs.len s) 0) :pattern ((gs.len s))))")
+	out = append(out, "(forall ((s Int)) (! (=> (= (gs.len s) 0) (= s gs.empty)) :pattern ((gs.len s))))")
+	names := []string{"gs.empty"}
 	for _, s := range sortedKeys(c.strlits) {
 		n := c.strlits[s]
 		names = append(names, n)
-		out = append(out, eq(app("str.len", n), num(int64(len(s)))))
+		out = append(out, eq(app("gs.len", n), num(int64(len(s)))))
 		if len(s) <= 24 {
 			for i := 0; i < len(s); i++ {
-				out = append(out, eq(app("str.at", n, num(int64(i))), num(int64(s[i]))))
+				out = append(out, eq(app("gs.at", n, num(int64(i))), num(int64(s[i]))))
 			}
 		}
 	}
@@ -368,7 +368,7 @@ func (c *Ctx) storePtr(s *State, ref string, t types.Type, val Value) {
 		}
 		return
 	}
-	c.frameWrite("F.box$"+typeKey(t)+".v", ref)
+	c.noteWrite(s, "F.box$"+typeKey(t)+".v", ref)
 	ls := leaves(t)
 	ts := flatten(val, t)
 	for i, l := range ls {
@@ -438,9 +438,25 @@ func (c *Ctx) recv(x *ast.UnaryExpr, s *State) Value {
 	}
 	t := c.typeOf(x)
 	if tup, ok := t.(*types.Tuple); ok {
-		return TupleV{c.freshValue(s, "recv", tup.At(0).Type()), BoolV{c.fresh("recvok", sBool)}}
+		v := c.freshValue(s, "recv", tup.At(0).Type())
+		okv := c.fresh("recvok", sBool)
+		s.assume(implies(okv, c.recvdPred(asInt(ch), v, tup.At(0).Type())))
+		return TupleV{v, BoolV{okv}}
 	}
-	return c.freshValue(s, "recv", t)
+	v := c.freshValue(s, "recv", t)
+	s.assume(c.recvdPred(asInt(ch), v, t))
+	return v
+}
+
+// recvdPred: "value v was received from channel ch" (uninterpreted, per element type).
+func (c *Ctx) recvdPred(ch string, v Value, t types.Type) string {
+	if _, isNone := v.(NoneV); isNone {
+		return "true"
+	}
+	flat := flatten(v, t)
+	fn := sanitize("recvd." + typeKey(t))
+	c.declareFun(fn, 1+len(flat), sBool)
+	return app(fn, append([]string{ch}, flat...)...)
 }
 
 // addrOf evaluates &e.
@@ -731,10 +747,10 @@ func (c *Ctx) valuesEqual(a, b Value, t types.Type) string {
 func (c *Ctx) strConcat(s *State, a, b string) Value {
 	c.useStr()
 	r := c.fresh("cat", sInt)
-	la, lb := app("str.len", a), app("str.len", b)
-	s.assume(eq(app("str.len", r), add(la, lb)))
-	s.assume(forall([]string{"k"}, "(! "+implies(and(le("0", "k"), lt("k", la)), eq(app("str.at", r, "k"), app("str.at", a, "k")))+" :pattern ((str.at "+r+" k)))"))
-	s.assume(forall([]string{"k"}, "(! "+implies(and(le("0", "k"), lt("k", lb)), eq(app("str.at", r, add(la, "k")), app("str.at", b, "k")))+" :pattern ((str.at "+b+" k)))"))
+	la, lb := app("gs.len", a), app("gs.len", b)
+	s.assume(eq(app("gs.len", r), add(la, lb)))
+	s.assume(forall([]string{"k"}, "(! "+implies(and(le("0", "k"), lt("k", la)), eq(app("gs.at", r, "k"), app("gs.at", a, "k")))+" :pattern ((gs.at "+r+" k)))"))
+	s.assume(forall([]string{"k"}, "(! "+implies(and(le("0", "k"), lt("k", lb)), eq(app("gs.at", r, add(la, "k")), app("gs.at", b, "k")))+" :pattern ((gs.at "+b+" k)))"))
 	return IntV{r}
 }
 
@@ -935,8 +951,8 @@ func (c *Ctx) evalIndex(x *ast.IndexExpr, s *State) Value {
 		str := asInt(c.eval(x.X, s))
 		i := asInt(c.eval(x.Index, s))
 		c.useStr()
-		c.boundsCheck(s, x, i, app("str.len", str))
-		r := app("str.at", str, i)
+		c.boundsCheck(s, x, i, app("gs.len", str))
+		r := app("gs.at", str, i)
 		s.assume(and(le("0", r), le(r, "255")))
 		return IntV{r}
 	case *types.Map:
@@ -995,7 +1011,7 @@ func (c *Ctx) evalSliceExpr(x *ast.SliceExpr, s *State) Value {
 	case *types.Basic:
 		str := asInt(c.eval(x.X, s))
 		c.useStr()
-		n := app("str.len", str)
+		n := app("gs.len", str)
 		lo, hi := "0", n
 		if x.Low != nil {
 			lo = asInt(c.eval(x.Low, s))
@@ -1007,8 +1023,8 @@ func (c *Ctx) evalSliceExpr(x *ast.SliceExpr, s *State) Value {
 			c.oblige(s, "slice", c.text(x), x.Pos(), and(le("0", lo), le(lo, hi), le(hi, n)), c.panicTags)
 		}
 		r := c.fresh("substr", sInt)
-		s.assume(eq(app("str.len", r), sub(hi, lo)))
-		s.assume(forall([]string{"k"}, "(! "+implies(and(le("0", "k"), lt("k", sub(hi, lo))), eq(app("str.at", r, "k"), app("str.at", str, add(lo, "k"))))+" :pattern ((str.at "+r+" k)))"))
+		s.assume(eq(app("gs.len", r), sub(hi, lo)))
+		s.assume(forall([]string{"k"}, "(! "+implies(and(le("0", "k"), lt("k", sub(hi, lo))), eq(app("gs.at", r, "k"), app("gs.at", str, add(lo, "k"))))+" :pattern ((gs.at "+r+" k)))"))
 		return IntV{r}
 	}
 	c.abstractNote(x.Pos(), "slice-expr "+c.text(x))
@@ -1049,7 +1065,9 @@ func (c *Ctx) mapLookup(s *State, m string, mt *types.Map, k Value) (Value, stri
 func (c *Ctx) mapStore(s *State, m string, mt *types.Map, k Value, v Value, at ast.Node) {
 	kt := c.keyTerm(k)
 	name := mapKeyName(mt)
-	c.frameWrite("D."+name, m)
+	c.noteWrite(s, "D."+name, m)
+	c.noteWrite(s, "V."+name, m)
+	c.noteWrite(s, "C."+name, m)
 	if c.checkPanics {
 		c.oblige(s, "nilmap", c.text(at), at.Pos(), not(eq(m, "0")), c.panicTags)
 	}
@@ -1069,7 +1087,8 @@ func (c *Ctx) mapStore(s *State, m string, mt *types.Map, k Value, v Value, at a
 func (c *Ctx) mapDelete(s *State, m string, mt *types.Map, k Value) {
 	kt := c.keyTerm(k)
 	name := mapKeyName(mt)
-	c.frameWrite("D."+name, m)
+	c.noteWrite(s, "D."+name, m)
+	c.noteWrite(s, "C."+name, m)
 	dom := c.heapGet(s, "D."+name, sA2)
 	card := c.heapGet(s, "C."+name, sA1)
 	was := eq(sel(sel(dom, m), kt), "1")
@@ -1092,7 +1111,7 @@ func (c *Ctx) mapNew(s *State, mt *types.Map) Value {
 func (c *Ctx) mapLen(s *State, m string, mt *types.Map) string {
 	card := c.heapGet(s, "C."+mapKeyName(mt), sA1)
 	r := ite(eq(m, "0"), "0", sel(card, m))
-	s.assume(le("0", sel(card, m)))
+	s.assume(and(le("0", sel(card, m)), le(sel(card, m), maxLen)))
 	return r
 }
 
